@@ -56,16 +56,21 @@ Definition c10w_seg (v : val) : option (Z * Z * Z * Z) :=
   end.
 Definition c10w_segs (v : val) : option (list (Z * Z * Z * Z)) :=
   match v with VL l => opt_all (map c10w_seg l) | _ => None end.
-(** the words of a segment, through the total model of NewPath: prefix x left-aligned in h bits *)
-Definition c10w_seg_strs (s : Z * Z * Z * Z) : list (option (list Z)) :=
-  match s with (h, l, start, count) =>
-    map (fun x => match NewPath_full (x * 2 ^ (h - l)) l h with
-                  | Some w => Some (PathStr w) | None => None end) (zrange (Z.to_nat count) start)
+(** the texts of the prefixes xs of a segment, through the total model of NewPath (prefix x left-aligned in h bits) *)
+Definition c10w_strs (h l : Z) (xs : list Z) : list (option (list Z)) :=
+  map (fun x => match NewPath_full (x * 2 ^ (h - l)) l h with
+                | Some w => Some (PathStr w) | None => None end) xs.
+Definition c10w_seg_strs (stride : Z) (s : Z * Z * Z * Z) : list (option (list Z)) :=
+  match s with (h, l, start, count) => c10w_strs h l (seg_xs start count stride) end.
+Definition c10w_first_strs (segs : list (Z * Z * Z * Z)) (K : Z) : list (option (list Z)) :=
+  match segs with
+  | [] => []
+  | (h, l, start, count) :: _ => c10w_strs h l (seg_xs start (Z.min K count) 1)
   end.
-Definition c10w_bulk (segs : list (Z * Z * Z * Z)) (K : Z) : option (Z * list (list Z)) :=
-  match opt_all (flat_map c10w_seg_strs segs) with
-  | Some ss => Some (digest ss, firstn (Z.to_nat K) ss)
-  | None => None
+Definition c10w_bulk (segs : list (Z * Z * Z * Z)) (K stride : Z) : option (Z * list (list Z)) :=
+  match opt_all (flat_map (c10w_seg_strs stride) segs), opt_all (c10w_first_strs segs K) with
+  | Some ss, Some fs => Some (digest ss, fs)
+  | _, _ => None
   end.
 Definition c10w_pack_bulk (r : Z * list (list Z)) : val := VL [VZ (fst r); VL (map vzs (snd r))].
 
@@ -188,19 +193,19 @@ Definition ops_C10_wide : list opdef := [
            | Some l => VL (map (fun hq => vzs (node_str (snd hq))) l)
            | None => VBad end
        | _ => VBad end) |};
-  (* a bulk session (compact): segments (h, l, start, count) rendered in order, then the first K again;
-     observed: [digest of all texts, texts of the first K on the second pass] *)
+  (* a bulk session (compact): every prefix of the segments (h, l, start, count) rendered in order, then the first K again;
+     observed: [digest of the texts of every stride-th prefix of each segment, texts of the first K on the second pass] *)
   {| op_name := "bmtree.PathStr/bulk";
      op_run := fun a => match a with
-       | [segs; VZ K] => match c10w_segs segs with
-           | Some segs => if (0 <=? K) && (K <=? 64) then
-               match c10w_bulk segs K with Some r => c10w_pack_bulk r | None => VPanic end
+       | [segs; VZ K; VZ stride] => match c10w_segs segs with
+           | Some segs => if (0 <=? K) && (K <=? 64) && (1 <=? stride) then
+               match c10w_bulk segs K stride with Some r => c10w_pack_bulk r | None => VPanic end
                else VBad
            | None => VBad end
        | _ => VBad end;
      op_spec := fun_spec (fun a => match a with
-       | [segs; VZ K] => match c10w_segs segs with
-           | Some segs => c10w_pack_bulk (bulk_spec segs K)
+       | [segs; VZ K; VZ stride] => match c10w_segs segs with
+           | Some segs => c10w_pack_bulk (bulk_spec segs K stride)
            | None => VBad end
        | _ => VBad end) |};
   (* G goroutines render the paths of the list in tight loops; observed: per path, the sorted set of
